@@ -308,6 +308,53 @@ func CheckEpochs(c *core.Ctx, d1 *lref.DAG, desc string, sealFrame int, kind str
 	}
 	starts = append(starts, start{"sealed(shortest path), then reset to the same epoch", sameEpochReset(0)},
 		start{"sealed(shortest path), half of the new epoch processed, then reset to the same epoch", sameEpochReset((len(evs2) + 1) / 2)})
+	// The new epoch first attempted with a provisional validator set (same members, one of the lightest made a
+	// dictator, so that forkless-cause answers differ), everything offered parents-first (rejections allowed),
+	// then Reset to the same epoch with the right set: nothing computed under the provisional set may survive.
+	if len(w2.W) > 1 {
+		alt := WeightVec{append([]uint32{}, w2.W...), append([]uint32{}, w2.IDs...)}
+		light := 0
+		for i, x := range alt.W {
+			if x <= alt.W[light] {
+				light = i
+			}
+		}
+		alt.W[light] = uint32(3 * totalW(w2.W))
+		vAlt := valsOf(alt)
+		provisional := func(from func() (*Node, string)) func() (*Node, string) {
+			return func() (*Node, string) {
+				n, msg := from()
+				if msg != "" {
+					return nil, msg
+				}
+				if err, crit := n.Reset(idx.Epoch(d1.Epoch)+1, vAlt); err != nil || crit != "" {
+					return nil, fmt.Sprintf("Reset to the provisional set failed: %v %s", err, crit)
+				}
+				accepted := map[hash.Event]bool{}
+				for _, e := range evs2 { // parents-first
+					ok := true
+					for _, p := range e.Parents() {
+						ok = ok && accepted[p]
+					}
+					if !ok {
+						continue
+					}
+					err, crit := n.Process(e)
+					if crit != "" {
+						return nil, fmt.Sprintf("processing %s under the provisional set: %s", name(e.ID()), crit)
+					}
+					accepted[e.ID()] = err == nil
+				}
+				if err, crit := n.Reset(idx.Epoch(d1.Epoch)+1, v2); err != nil || crit != "" {
+					return nil, fmt.Sprintf("Reset from the provisional set failed: %v %s", err, crit)
+				}
+				n.Blocks = nil
+				return n, ""
+			}
+		}
+		starts = append(starts, start{"reset-from-genesis to a provisional set (a light validator made dictator), new epoch offered, then reset to the same epoch with the right set", provisional(func() (*Node, string) { return newNode(), "" })},
+			start{"sealed(longest path), reset to a provisional set, new epoch offered, then reset to the same epoch with the right set", provisional(func() (*Node, string) { return runPath(sealPathLong) })})
+	}
 	if rep["restart"] {
 		restarted := func(mk func() (*Node, string)) func() (*Node, string) {
 			return func() (*Node, string) {
@@ -359,6 +406,24 @@ func CheckEpochs(c *core.Ctx, d1 *lref.DAG, desc string, sealFrame int, kind str
 					node = m
 				}
 				err, crit := node.Process(evs2[x])
+				if (err != nil || crit != "") && rep["restart"] {
+					// differential oracle of the restart property: a twin restarted at the starting point decides otherwise
+					if tw, tmsg := st.mk(); tmsg == "" {
+						if tw2, rerr := tw.Restart(); rerr == nil {
+							var terr error
+							tcrit := ""
+							for _, y := range seq[:k+1] {
+								if terr, tcrit = tw2.Process(evs2[y]); terr != nil || tcrit != "" {
+									break
+								}
+							}
+							if fmt.Sprint(terr, tcrit) != fmt.Sprint(err, crit) {
+								violate("restart", "restart/decision-differs-from-restarted-twin", replay(), "[%s] Process(n%d) = %v %s after %v in the new epoch, but an instance restarted at the starting point answers %v %s [%v]", st.name, x, err, crit, seq[:k], terr, tcrit, replay())
+								return false
+							}
+						}
+					}
+				}
 				if err != nil || crit != "" {
 					violate("accept", "accept/rejected-valid-event-new-epoch", replay(), "[%s] Process(n%d) = %v %s after %v in the new epoch [%v]", st.name, x, err, crit, seq[:k], replay())
 					return false
